@@ -2,6 +2,7 @@ package main
 
 import (
 	"fmt"
+	"strconv"
 	gosort "sort"
 	"go/constant"
 	"go/token"
@@ -266,7 +267,12 @@ func under(t types.Type) types.Type {
 	return t.Underlying()
 }
 
+// realFromString: a decimal literal of the contract language denotes the float64 nearest to it,
+// exactly as the same literal does in the Go source (0.8 is not 4/5 in either place).
 func realFromString(s string) Term {
+	if f, err := strconv.ParseFloat(s, 64); err == nil {
+		return realLit(constant.MakeFloat64(f))
+	}
 	return realLit(constant.MakeFromLiteral(s, token.FLOAT, 0))
 }
 func (e *SpecEnv) ident(name string) SVal {
